@@ -7,12 +7,16 @@ import (
 	"errors"
 	"flag"
 	"fmt"
+	"math/rand"
 	"os"
+	"strings"
+	"sync"
 	"time"
 
 	serrors "github.com/jamf/regatta/storage/errors"
 	"github.com/jamf/regatta/storage/kv"
 	"github.com/jamf/regatta/storage/table"
+	dbsm "github.com/lni/dragonboat/v4/statemachine"
 
 	"verif/harness/internal/gate"
 	"verif/harness/internal/nh"
@@ -77,7 +81,7 @@ func (g *gatedStore) Get(key string) (kv.Pair, error) {
 	if err == nil {
 		owner, cls = untilClass(p.Value)
 	}
-	g.tr.Emit(map[string]any{"ev": "sget", "n": g.node, "key": key, "found": err == nil, "owner": owner, "until": cls, "ver": p.Ver, "val": p.Value})
+	g.tr.Emit(map[string]any{"ev": "sget", "n": g.node, "key": key, "lease": strings.HasSuffix(key, "/lease"), "found": err == nil, "owner": owner, "until": cls, "ver": p.Ver, "val": p.Value})
 	return p, err
 }
 
@@ -85,14 +89,14 @@ func (g *gatedStore) Set(key, value string, ver uint64) (kv.Pair, error) {
 	g.s.Gate(g.node - 1)
 	p, err := g.inner.Set(key, value, ver)
 	owner, cls := untilClass(value)
-	g.tr.Emit(map[string]any{"ev": "sset", "n": g.node, "key": key, "ver": ver, "owner": owner, "until": cls, "val": value, "err": errClass(err), "rver": p.Ver})
+	g.tr.Emit(map[string]any{"ev": "sset", "n": g.node, "key": key, "lease": strings.HasSuffix(key, "/lease"), "ver": ver, "owner": owner, "until": cls, "val": value, "err": errClass(err), "rver": p.Ver})
 	return p, err
 }
 
 func (g *gatedStore) Delete(key string, ver uint64) error {
 	g.s.Gate(g.node - 1)
 	err := g.inner.Delete(key, ver)
-	g.tr.Emit(map[string]any{"ev": "sdel", "n": g.node, "key": key, "ver": ver, "err": errClass(err)})
+	g.tr.Emit(map[string]any{"ev": "sdel", "n": g.node, "key": key, "lease": strings.HasSuffix(key, "/lease"), "ver": ver, "err": errClass(err)})
 	return err
 }
 
@@ -134,6 +138,12 @@ func leaseRun(tr *tracer.T, rs *kv.RaftStore, b leaseBeh, tbl string) {
 		mgrs[i] = table.NewManager(nil, nil, &gatedStore{inner: rs, node: i + 1, s: s, tr: tr},
 			table.Config{NodeID: uint64(i + 1), Table: table.TableConfig{BlockCacheSize: 1 << 20, TableCacheSize: 16}})
 	}
+	// the catalogue record of the table (LeaseTable does not look at it; DeleteTable in the epilogue does)
+	if rec, err := json.Marshal(table.Table{Name: tbl, ClusterID: 10001}); err != nil {
+		die("%v", err)
+	} else if _, err := rs.Set("/tables/"+tbl, string(rec), 0); err != nil {
+		die("table record: %v", err)
+	}
 	next := make([]int, nn)
 	call := func(i int) func() {
 		kind := b.Prog[i][next[i]]
@@ -154,6 +164,23 @@ func leaseRun(tr *tracer.T, rs *kv.RaftStore, b leaseBeh, tbl string) {
 					res = "notacquired"
 				default:
 					res = errClass(err)
+				}
+			case "DT":
+				// another catalogue operation on the leased table: it must leave the lease record alone
+				err := mgrs[i].DeleteTable(tbl)
+				switch {
+				case err == nil:
+					res = "deleted"
+				case errors.Is(err, serrors.ErrTableNotFound):
+					res = "notfound"
+				default:
+					res = errClass(err)
+				}
+			case "GT":
+				if _, err := mgrs[i].GetTables(); err != nil {
+					res = errClass(err)
+				} else {
+					res = "listed"
 				}
 			case "RT":
 				ok, err := mgrs[i].ReturnTable(tbl)
@@ -188,11 +215,109 @@ func leaseRun(tr *tracer.T, rs *kv.RaftStore, b leaseBeh, tbl string) {
 		step(n - 1)
 	}
 	// drain whatever the schedule left (a change of the code may need more store calls than the model)
-	for i := 0; i < nn; i++ {
-		for guard := 0; (s.Running(i) || next[i] < len(b.Prog[i])) && guard < 100; guard++ {
-			step(i)
+	drain := func() {
+		for i := 0; i < nn; i++ {
+			for guard := 0; (s.Running(i) || next[i] < len(b.Prog[i])) && guard < 100; guard++ {
+				step(i)
+			}
 		}
 	}
+	drain()
+	// EPILOGUE (sequential): whoever holds the lease now keeps it while the OTHER nodes list the tables, delete the
+	// table and ask for the lease; then the holder renews and returns it
+	if nn >= 2 {
+		for _, e := range []struct {
+			node int
+			kind string
+		}{{0, "LL"}, {1, "GT"}, {1, "DT"}, {1, "LL"}, {nn - 1, "LL"}, {0, "LL"}, {1, "RT"}, {0, "RT"}, {1, "LL"}, {0, "DT"}, {0, "LL"}} {
+			b.Prog[e.node] = append(b.Prog[e.node], e.kind)
+			drain()
+		}
+	}
+}
+
+// leaseRace : racing lease requests whose compare-and-set proposals are committed together and reach the metadata state
+// machine as ONE apply batch: the state machine is parked (verif hook) on a preceding proposal while the racers read the
+// lease record and propose. Cases: unclaimed table, expired lease of another node, expired lease of a racer, own renewal
+// racing with a takeover.
+func leaseRace(tr *tracer.T, rs *kv.RaftStore, rng *rand.Rand, round int) {
+	tr.Emit(map[string]any{"ev": "reset"})
+	tbl := fmt.Sprintf("race%d", round)
+	nn := 2 + rng.Intn(3)
+	mgrs := make([]*table.Manager, nn+1)
+	for i := range mgrs {
+		mgrs[i] = table.NewManager(nil, nil, rs, table.Config{NodeID: uint64(i + 1), Table: table.TableConfig{BlockCacheSize: 1 << 20, TableCacheSize: 16}})
+	}
+	// the situation before the race
+	pre := rng.Intn(4)
+	holder, unexpired := 0, false
+	switch pre {
+	case 1: // an EXPIRED lease of a node that does not take part
+		if err := mgrs[nn].LeaseTable(tbl, -time.Hour); err != nil {
+			die("pre lease: %v", err)
+		}
+		holder = nn + 1
+	case 2: // an expired lease of racer 1
+		if err := mgrs[0].LeaseTable(tbl, -time.Hour); err != nil {
+			die("pre lease: %v", err)
+		}
+		holder = 1
+	case 3: // an UNEXPIRED lease of racer 1 (it renews while the others try to take over)
+		if err := mgrs[0].LeaseTable(tbl, time.Hour); err != nil {
+			die("pre lease: %v", err)
+		}
+		holder, unexpired = 1, true
+	}
+	var mu sync.Mutex
+	cond := sync.NewCond(&mu)
+	parked := true
+	kv.VerifUpdateHook = func(shard, replica uint64, ents []dbsm.Entry) {
+		mu.Lock()
+		for parked {
+			cond.Wait()
+		}
+		mu.Unlock()
+	}
+	defer func() { kv.VerifUpdateHook = nil }()
+	// a proposal on another key parks the state machine
+	blocker := make(chan struct{})
+	go func() {
+		if _, err := rs.Set("/verif/blocker", fmt.Sprint(round), 0); err != nil && !errors.Is(err, kv.ErrVersionMismatch) {
+			die("blocker: %v", err)
+		}
+		close(blocker)
+	}()
+	time.Sleep(3 * time.Millisecond)
+	res := make([]string, nn)
+	var wg sync.WaitGroup
+	for i := 0; i < nn; i++ {
+		wg.Add(1)
+		go func(i int) {
+			defer wg.Done()
+			err := mgrs[i].LeaseTable(tbl, time.Hour)
+			switch {
+			case err == nil:
+				res[i] = "ok"
+			case errors.Is(err, serrors.ErrLeaseNotAcquired):
+				res[i] = "notacquired"
+			default:
+				res[i] = errClass(err)
+			}
+		}(i)
+	}
+	time.Sleep(time.Duration(10+rng.Intn(15)) * time.Millisecond) // the racers have read the record and proposed
+	mu.Lock()
+	parked = false
+	cond.Broadcast()
+	mu.Unlock()
+	wg.Wait()
+	<-blocker
+	// who holds it afterwards, by the store
+	owner := uint64(0)
+	if p, err := rs.Get("/tables/" + tbl + "/lease"); err == nil {
+		owner, _ = untilClass(p.Value)
+	}
+	tr.Emit(map[string]any{"ev": "race", "results": res, "holder": holder, "unexpired": unexpired, "owner": owner})
 }
 
 func init() {
@@ -201,10 +326,28 @@ func init() {
 		out := fs.String("out", "trace.ndjson", "trace")
 		only := fs.Int("only", -1, "only behaviour k")
 		in := fs.String("in", "", "TLC-generated behaviours")
+		races := fs.Int("races", 0, "racing rounds (batched compare-and-set proposals) instead of TLC schedules")
+		seed := fs.Int64("seed", 1, "seed")
 		_ = fs.Parse(args)
 		tr, err := tracer.New(*out)
 		if err != nil {
 			die("%v", err)
+		}
+		if *races > 0 {
+			rs, stop := startRaftStore()
+			defer stop()
+			for b := 0; b < *races; b++ {
+				if *only >= 0 && b != *only {
+					continue
+				}
+				start := tr.Lines() + 1
+				leaseRace(tr, rs, rand.New(rand.NewSource(*seed*65537+int64(b))), b)
+				fmt.Printf("BEHAVIOUR %d lines %d-%d class 1\n", b, start, tr.Lines())
+			}
+			if err := tr.Close(); err != nil {
+				die("%v", err)
+			}
+			return 0
 		}
 		data, err := os.ReadFile(*in)
 		if err != nil {
